@@ -334,21 +334,52 @@ func ruleGGate(p *Program, r *Reporter) {
 	}
 	dispatch := map[string]bool{"Insert": true, "Select": true, "Update": true, "Mutate": true, "Delete": true, "Wait": true}
 	n := 0
-	for _, b := range fn.Blocks {
-		for _, ins := range b.Instrs {
-			c, ok := ins.(*ssa.Call)
-			if !ok {
-				continue
+	region := p.PrivateRegion(fn)
+	ci := getCallIndex(p)
+	// gated: the call is dominated by a checked expansion in its own function, or its
+	// function is a private helper of Transact all of whose call sites are gated
+	var gated func(g *ssa.Function, c *ssa.Call, depth int) bool
+	gated = func(g *ssa.Function, c *ssa.Call, depth int) bool {
+		if dominatedByCheckedCall(g, c, exp, func(*ssa.Call) bool { return true }) {
+			return true
+		}
+		if g == fn || depth > 4 || !region[g] {
+			return false
+		}
+		sites := ci.sites[g]
+		if len(sites) == 0 {
+			return false
+		}
+		for _, s := range sites {
+			sc, ok := s.instr.(*ssa.Call)
+			if !ok || !region[s.caller] || !gated(s.caller, sc, depth+1) {
+				return false
 			}
-			sc := c.Call.StaticCallee()
-			if sc == nil || !dispatch[sc.Name()] || sc.Signature.Recv() == nil || !isNamed(sc.Signature.Recv().Type(), repoMod+"/database/transaction", "Transaction") {
-				continue
+		}
+		return true
+	}
+	var fns []*ssa.Function
+	for g := range region {
+		fns = append(fns, g)
+	}
+	sort.Slice(fns, func(i, j int) bool { return fns[i].Pos() < fns[j].Pos() })
+	for _, g := range fns {
+		for _, b := range g.Blocks {
+			for _, ins := range b.Instrs {
+				c, ok := ins.(*ssa.Call)
+				if !ok {
+					continue
+				}
+				sc := c.Call.StaticCallee()
+				if sc == nil || !dispatch[sc.Name()] || sc.Signature.Recv() == nil || !isNamed(sc.Signature.Recv().Type(), repoMod+"/database/transaction", "Transaction") {
+					continue
+				}
+				n++
+				ok2 := gated(g, c, 0)
+				r.Ob(id, funcName(fn), "dispatch "+sc.Name(), c.Pos(), ok2, true,
+					ifs(ok2, "dominated by a checked ExpandNamedUUIDs (unknown tables/columns already rejected, names resolved)",
+						sc.Name()+" can run before / without a successful ExpandNamedUUIDs: unknown tables or columns reach code that dereferences their schema"))
 			}
-			n++
-			ok2 := dominatedByCheckedCall(fn, c, exp, func(*ssa.Call) bool { return true })
-			r.Ob(id, funcName(fn), "dispatch "+sc.Name(), c.Pos(), ok2, true,
-				ifs(ok2, "dominated by a checked ExpandNamedUUIDs (unknown tables/columns already rejected, names resolved)",
-					sc.Name()+" can run before / without a successful ExpandNamedUUIDs: unknown tables or columns reach code that dereferences their schema"))
 		}
 	}
 	if n < 6 {
